@@ -91,11 +91,15 @@ def resetGroup (g idx : Nat) : List FieldD → List Val → Nat → List Val
   | fj :: fs', s :: ss, j => (if fj.group == some g && j != idx then Val.ph else s) :: resetGroup g idx fs' ss (j + 1)
   | _, ss, _ => ss
 
+/-- `if isinstance(value, Message) and not value._betterproto.meta_by_field_name:
+    value._serialized_on_wire = True`: assigning an instance of a field-less class marks it present -/
+def markEmpty (S : Schema) : Val → Val
+  | .msg c sl ow unk cur => if (fieldsOf S c).isEmpty then Val.msg c sl true unk cur else .msg c sl ow unk cur
+  | v => v
+
 /-- `Message.__setattr__(name, value)` after `__post_init__` -/
 def setAttr (S : Schema) (fs : List FieldD) (st : MState) (idx : Nat) (v : Val) : MState :=
-  let v := match v with
-    | .msg c sl ow unk cur => if (fieldsOf S c).isEmpty then Val.msg c sl true unk cur else .msg c sl ow unk cur
-    | v => v
+  let v := markEmpty S v
   match fs[idx]? with
   | Option.none => st
   | some f =>
